@@ -17,7 +17,11 @@
                                                                   C15PcaModel.pca_setdata / pca_encoder / pca_decoder run with the
                                                                   recorded values as the oracle's answer and sq = the correctly
                                                                   rounded double square root (exact whenever the root is a double)
-     D/DW lam n d K | .. | X | labels [| weights] || mat(K*d) -> prior means cov res(K*d) bpart(K) *)
+     D/DW lam n d K | .. | X | labels [| weights] || mat(K*d) -> prior means cov res(K*d) bpart(K)
+   L, D, DW additionally run the AS-CODED models of C15SolveModel.v over Qc (statistics as coded + the C02 model of the semi-definite
+   solver: pstrf, potrf of L^T L, substitutions), with sq = the correctly rounded double square root and epsm = 2^-52:
+     L  -> mrank mbeta(o*(d+1))    (rank found by the pivoted factorisation; "mbeta=NONE" when the model raises an exception)
+     D/DW -> mrank zmeans(K*d) zcov(d*d) mz(K*d) mbp(K) mprior(K) wmet    ("mz=NONE": exception, e.g. a class without examples) *)
 open C15_model
 
 let rec nat_of_int n = if n <= 0 then O else S (nat_of_int (n - 1))
@@ -82,6 +86,15 @@ let q_of_float (f : float) : q =
     let r = qred { qnum = z_of_bin num; qden = pos_of_bin den } in
     if f < 0.0 then qopp r else r end
 let q_sqrt (x : q) : q = q_of_float (sqrt (float_of_q x))
+
+(* ---- Qc instance of the arithmetic record of C02Model (qc = canonical q) ---- *)
+let qc_of (x : q) : qc = q2Qc x
+let fqc = qc_ops (fun x -> q2Qc (q_sqrt x))
+let qc_epsm = q2Qc (q_of_float epsilon_float)
+let qc_half = q2Qc { qnum = Zpos XH; qden = XO XH }
+let vec_out (n : int) (v : qc vec) : q list = List.map (fun i -> v (nat_of_int i)) (List.init n (fun i -> i))
+let rank_of n m = match semi_decompose fqc qc_abs (nat_of_int 20) (nat_of_int 32) (nat_of_int 32) RowMajor (nat_of_int n) qc_epsm m with
+  | Some dec -> string_of_int (int_of_nat dec.sd_rank) | None -> "-1"
 
 let split_on sep toks =
   let rec go acc cur = function
@@ -179,7 +192,13 @@ let handle line =
     let g = List.concat_map (fun c ->
         let beta i = let k = int_of_nat i in if k < d then m.(c * d + k) else if k = d then off.(c) else q0 in
         List.map (fun j -> lr_grad (nat_of_int d) lam data (nat_of_int c) beta (nat_of_int j)) (range (d + 1))) (range o) in
-    out "grad" g
+    let rdata = chunk sizes (List.map2 (fun x y -> (List.map qc_of x, List.map qc_of y)) xs ys) in
+    let dn = nat_of_int d in
+    let lamc = qc_of lam in
+    let mb = (match lrc_train fqc qc_abs dn (nat_of_int o) lamc qc_epsm rdata with
+      | Some bs -> out "mbeta" (List.concat_map (fun b -> vec_out (d + 1) b) bs)
+      | None -> "mbeta=NONE") in
+    String.concat " " [ out "grad" g; "mrank=" ^ rank_of (d + 1) (lrc_A fqc dn lamc rdata); mb ]
   | "D" | "DW" ->
     let lam = q_of_string (arg 0) and d = int_of_string (arg 2) and kk = int_of_string (arg 3) in
     let xs = rows d (sec 2) and labs = List.map (fun s -> nat_of_int (int_of_string s)) (List.nth case 3) in
@@ -200,7 +219,24 @@ let handle line =
       out "cov" (Array.to_list cvt);
       out "res" (List.concat_map (fun c -> let cn = nat_of_int c in
                    List.map (fun k -> lda_residual dn cf (mn cn) (zm cn) (nat_of_int k)) (range d)) cls);
-      out "bpart" (List.map (fun c -> let cn = nat_of_int c in lda_bias_part dn (mn cn) (zm cn)) cls) ]
+      out "bpart" (List.map (fun c -> let cn = nat_of_int c in lda_bias_part dn (mn cn) (zm cn)) cls);
+      (let lamc = qc_of lam in
+       let res, wmet =
+         if weighted then
+           let wd = chunk sizes (List.map (fun ((x, y), w) -> ((List.map qc_of x, y), qc_of w)) l) in
+           (ldaw_train fqc qc_abs qc_half dn kn lamc qc_epsm wd, ldaw_met wd)
+         else
+           let cd = chunk sizes (List.map (fun ((x, y), _) -> (List.map qc_of x, y)) l) in
+           (ldac_train fqc qc_abs qc_half dn kn lamc qc_epsm cd, []) in
+       match res with
+       | None -> "mz=NONE"
+       | Some r ->
+         String.concat " " [
+           "mrank=" ^ rank_of d r.lda_covm;
+           out "zmeans" (List.concat_map (vec_out d) r.lda_means);
+           out "zcov" (List.concat_map (fun j -> vec_out d (r.lda_covm (nat_of_int j))) (range d));
+           out "mz" (List.concat_map (vec_out d) r.lda_z);
+           out "mbp" r.lda_bias_parts; out "mprior" r.lda_priors; out "wmet" wmet ]) ]
   | _ -> kind ^ " -"
 
 let () =
